@@ -52,7 +52,7 @@ static void make_signal(vh_rng *r, int kind, int16_t *s, long n)
 /* ---------- A: front end ---------- */
 static void run_fe(long i, vh_rng *r)
 {
-    config_t *cf = config_init(NULL); fe_t *fe; int shift, size, dim, kind = (int)vh_below(r, NSIG), enc = (int)vh_below(r, 3), k;
+    config_t *cf = config_init(NULL); fe_t *fe; int shift, size, dim, kind = (int)vh_below(r, NSIG), enc = (int)vh_below(r, 3), k, swapped;
     long n = VH_PICK(r, ((long[]){ 1, 200, 410, 1000, 8000, 40000, 160000 })), j, pos = 0, nfr = 0, bad = 0; int16_t *s; float *f; mfcc_t **buf;
     static const int rates[] = { 8000, 16000, 16000, 44100 }; int sr = VH_PICK(r, rates);
     config_set_int(cf, "samprate", sr); config_set_int(cf, "frate", VH_PICK(r, ((int[]){ 100, 50, 200 })));
@@ -60,14 +60,33 @@ static void run_fe(long i, vh_rng *r)
     config_set_int(cf, "lifter", vh_chance(r, 0.5) ? 22 : 0); config_set_bool(cf, "remove_noise", vh_chance(r, 0.6)); config_set_bool(cf, "remove_dc", vh_chance(r, 0.4));
     config_set_bool(cf, "logspec", vh_chance(r, 0.15)); config_set_bool(cf, "smoothspec", vh_chance(r, 0.15)); config_set_int(cf, "nfilt", VH_PICK(r, ((int[]){ 40, 20, 25 })));
     config_set_float(cf, "upperf", sr == 8000 ? 3500.0 : 6855.4976); config_set_float(cf, "lowerf", 133.33334); config_set_bool(cf, "dither", 0);
+    /* the analysis window, the FFT size and the shape of the filter bank: a configuration the front end accepts must give finite
+     * features (one it refuses is not counted) */
+    if (vh_chance(r, 0.5)) {
+        config_set_float(cf, "wlen", VH_PICK(r, ((double[]){ 0.01, 0.012, 0.016, 0.02, 0.025625, 0.032, 0.04, 0.064 })));
+        config_set_int(cf, "nfft", VH_PICK(r, ((int[]){ 0, 0, 0, 256, 512, 1024, 4096 })));
+        if (vh_chance(r, 0.4)) config_set_int(cf, "nfilt", VH_PICK(r, ((int[]){ 13, 31, 40, 60, 80 })));
+        if (vh_chance(r, 0.3)) config_set_bool(cf, "round_filters", 0);
+        if (vh_chance(r, 0.2)) config_set_bool(cf, "doublebw", 1);
+        if (vh_chance(r, 0.2)) config_set_bool(cf, "unit_area", 0);
+        if (vh_chance(r, 0.2)) { config_set_float(cf, "lowerf", VH_PICK(r, ((double[]){ 0.0, 64.0, 200.0, 1000.0 }))); config_set_float(cf, "upperf", VH_PICK(r, ((double[]){ 3400.0, 3999.0, sr / 2.0, sr / 2.0 - 1 }))); }
+        if (vh_chance(r, 0.15)) { config_set_str(cf, "warp_type", VH_PICK(r, ((const char *[]){ "inverse_linear", "affine", "piecewise_linear" }))); config_set_str(cf, "warp_params", VH_PICK(r, ((const char *[]){ "1.0", "0.9", "1.15", "1.05 10", "0.95 3000" }))); }
+        vh_count("front_end_shape_variants", 1);
+    }
     if (vh_chance(r, 0.15)) config_set_float(cf, "alpha", 0.0);
+    /* audio in the other byte order, declared as such: the front end swaps every sample it reads */
+    swapped = vh_chance(r, 0.15);
+    if (swapped) { union { uint16_t u; unsigned char c[2]; } e; e.u = 1; config_set_str(cf, "input_endian", e.c[0] ? "big" : "little"); vh_count("fe_runs_other_byte_order", 1); }
     vh_ctx("fe_init"); fe = fe_init(cf); config_free(cf);
     if (!fe) { vh_inconc("front-end configuration refused"); return; }
     fe_get_input_size(fe, &shift, &size); dim = fe_get_output_size(fe);
     s = (int16_t *)malloc(sizeof(int16_t) * (size_t)(n + 1)); f = (float *)malloc(sizeof(float) * (size_t)(n + 1));
     make_signal(r, kind, s, n);
     for (j = 0; j < n; ++j) f[j] = enc == 2 ? (float)s[j] / 32768.0f * 8.0f : (float)s[j] / 32768.0f;
-    vh_desc("front end: samprate=%d, signal %s, %ld samples, %s", sr, sig_name[kind], n, enc == 0 ? "int16" : enc == 1 ? "float32 in [-1,1]" : "float32 up to +-8");
+    /* float samples are not multiples of 2^-15: half of the float runs carry a fraction of an LSB in every sample (all mantissa bits in use) */
+    if (enc && vh_chance(r, 0.5)) { for (j = 0; j < n; ++j) f[j] += ((float)vh_unit(r) - 0.5f) / 32768.0f; vh_count("fe_float32_full_mantissa", 1); }
+    if (swapped) for (j = 0; j < n; ++j) { unsigned char *b = (unsigned char *)&s[j], t = b[0]; b[0] = b[1]; b[1] = t; b = (unsigned char *)&f[j]; t = b[0]; b[0] = b[3]; b[3] = t; t = b[1]; b[1] = b[2]; b[2] = t; }
+    vh_desc("front end: samprate=%d, signal %s, %ld samples, %s%s", sr, sig_name[kind], n, enc == 0 ? "int16" : enc == 1 ? "float32 in [-1,1]" : "float32 up to +-8", swapped ? ", samples in the other byte order (input_endian set accordingly)" : "");
     buf = (mfcc_t **)ckd_calloc_2d(64, (size_t)dim, sizeof(mfcc_t));
     fe_start(fe);
     while (pos <= n) {
